@@ -383,9 +383,19 @@ Definition duration_of (v : vevent) : Z :=
   let e := end_dt v in
   if same_clock s e then wall_of e - wall_of s else ts_of e - ts_of s.
 
+(* the end of a single event given by DURATION on a date-time start (RFC 5545 3.3.6): the days are
+   nominal (start_dt + timedelta(days) moves on the wall clock), the rest is exact elapsed time *)
+Definition static_end_ts (v : vevent) : Z :=
+  match ve_end v with
+  | EDuration s =>
+    if is_date (ve_dtstart v) || (s <? 0) then ts_of (end_dt v)
+    else ts_of (add_dur (ve_dtstart v) ((s / DAY) * DAY)) + s mod DAY
+  | _ => ts_of (end_dt v)
+  end.
+
 Definition of_vevent (v : vevent) : option item :=
   let start_ts := ts_of (ve_dtstart v) in
-  let end_ts := ts_of (end_dt v) in
+  let end_ts := static_end_ts v in
   let m := mkMeta (loaded_text (ve_summary v)) (loaded_text (ve_description v))
                   (loaded_text (ve_uid v)) (loaded_text (ve_location v)) (is_date (ve_dtstart v)) in
   match ve_rrule v with
